@@ -73,6 +73,15 @@ Theorem C16_front_closing_frame : forall live closing l,
 Proof. exact deliver_frame. Qed.
 Print Assumptions C16_front_closing_frame.
 
+(* a write that fails once (the connection stays open and registered) costs that connection that one
+   message and nothing else: whatever stands before and after a push in a sequence of pushes on one
+   front-end, the push delivers exactly to its own listed live connections whose write succeeded *)
+Theorem C16_front_transient_failure_frame : forall h live pre p post, exists dpre dpost,
+  obs_at h (OFrontSeq live (pre ++ p :: post)) = BDeliverSeq (dpre ++ front_push live (snd p) (fst p) :: dpost)
+  /\ length dpre = length pre /\ length dpost = length post.
+Proof. exact front_seq_frame. Qed.
+Print Assumptions C16_front_transient_failure_frame.
+
 (* the executable monitor accepts everything the spec allows (so a monitor failure on an
    implementation trace is a spec violation) *)
 Theorem C16_monitor_sound : forall h c b, push_spec h c b -> push_spec_b h c b = true.
